@@ -68,10 +68,6 @@ Definition pinned_cache_keys : list cache_key := [
   CacheKey "name_check_visitor.py" "NameCheckVisitor._set_argspec_to_retval" "self._argspec_to_retval" "store" "id(sig)";
   CacheKey "name_check_visitor.py" "NameCheckVisitor.get_local_return_value" "self._argspec_to_retval" "get" "id(sig)";
   CacheKey "name_check_visitor.py" "NameCheckVisitor.visit" "self._method_cache" "load" "node_type := type(node)";
-  CacheKey "stacked_scopes.py" "FunctionScope._resolve_value" "val.resolution_cache" "in" "key := replace(ctx, fallback_value=None)";
-  CacheKey "stacked_scopes.py" "FunctionScope._resolve_value" "val.resolution_cache" "load" "key := replace(ctx, fallback_value=None)";
-  CacheKey "stacked_scopes.py" "FunctionScope._resolve_value" "val.resolution_cache" "store" "key := replace(ctx, fallback_value=None)";
-  CacheKey "stacked_scopes.py" "_LookupContext" "<dataclass fields>" "fields" "varname, fallback_value, node, state";
   CacheKey "type_object.py" "TypeObject.can_assign" "self._protocol_positive_cache" "get" "other_val";
   CacheKey "type_object.py" "TypeObject.can_assign" "self._protocol_positive_cache" "store" "other_val"
 ]%list.
@@ -82,3 +78,16 @@ Fixpoint keys_eqb (a b : list cache_key) : bool :=
   | x :: a', y :: b' => key_eqb x y && keys_eqb a' b'
   | _, _ => false
   end%list.
+
+(* The key of the process-global resolution_cache, field by field (regenerated as
+   Gen.State.resolution_key_fields): the result of a resolution depends on the variable, the
+   use node and the visitor state, so these three must be taken over unchanged; fallback_value
+   may be blanked (a value with a fallback is never the shared sentinel's entry). *)
+Definition field_status (fs : list (string * string)) (f : string) : string :=
+  match find (fun p => String.eqb (fst p) f) fs with
+  | Some p => snd p
+  | None => "missing"
+  end.
+Definition resolution_key_ok (fs : list (string * string)) : bool :=
+  String.eqb (field_status fs "varname") "kept" && String.eqb (field_status fs "node") "kept"
+  && String.eqb (field_status fs "state") "kept".
